@@ -15,21 +15,23 @@ func (p *Pool) lazyResend() {
 
 	p.sendWg.Add(1)
 	go func() {
-		defer func() {
-			p.lazySendM.Unlock()
-			p.sendWg.Done()
-		}()
+		defer p.sendWg.Done()
 
 		for {
 			p.listM.Lock()
 			n := p.el.PopBack()
-			p.listM.Unlock()
 			if n == nil {
+				// Release the flusher slot while the list is still locked: a concurrent
+				// lazySend either pushed before this check or will start a new flusher.
+				p.lazySendM.Unlock()
+				p.listM.Unlock()
 				return
 			}
+			p.listM.Unlock()
 
 			select {
 			case <-p.ctx.Done():
+				p.lazySendM.Unlock()
 				return
 			case p.ch <- n.V():
 				p.pool.Release(n)
